@@ -1,29 +1,48 @@
 // Kani harness compiled inside qbase::frame::streams_blocked (overlay injection, cfg(kani) only).
-// Property C12 (reachability lemma for the pending harness c12_remote_blocked_demand_any_pending): the
-// STREAMS_BLOCKED parser accepts EVERY varint, including values above 2^60 and 2^62-1 itself —
-// nothing between the wire and `RemoteStreamIds::recv_streams_blocked_frame` bounds the value.
+// Property C12 (lemma used by c12_remote_blocked_demand): the STREAMS_BLOCKED parser accepts a value iff
+// it is <= 2^60-1 (RFC 9000 section 19.14; same bound as MAX_STREAMS). On the pinned tree it accepted EVERY
+// varint up to 2^62-1 and nothing between the wire and `RemoteStreamIds::recv_streams_blocked_frame`
+// bounded the value (genuine defect, fixed in /repo).
 use super::*;
 
 #[kani::proof]
 #[kani::unwind(10)]
-fn c12_streams_blocked_frame_unbounded() {
+fn c12_streams_blocked_frame_bound() {
     let arr: [u8; 9] = kani::any();
     let len: usize = kani::any();
     kani::assume(len <= 9);
     let dir = if kani::any() { Dir::Bi } else { Dir::Uni };
-    if let Ok((remain, f)) = streams_blocked_frame_with_dir(dir)(&arr[..len]) {
-        let v = match f {
-            StreamsBlockedFrame::Bi(v) => {
-                assert!(dir == Dir::Bi);
-                v.into_u64()
+    // independent reading of the varint
+    let complete = len >= 1 && len >= (1usize << (arr[0] >> 6));
+    match streams_blocked_frame_with_dir(dir)(&arr[..len]) {
+        Ok((remain, f)) => {
+            let v = match f {
+                StreamsBlockedFrame::Bi(v) => {
+                    assert!(dir == Dir::Bi);
+                    v.into_u64()
+                }
+                StreamsBlockedFrame::Uni(v) => {
+                    assert!(dir == Dir::Uni);
+                    v.into_u64()
+                }
+            };
+            assert!(complete && remain.len() < len);
+            assert!(v <= crate::sid::MAX_STREAMS_LIMIT, "STREAMS_BLOCKED above 2^60-1 must be rejected");
+            kani::cover!(v == crate::sid::MAX_STREAMS_LIMIT, "largest accepted value");
+        }
+        Err(e) => {
+            if complete && (arr[0] >> 6) < 3 {
+                panic!("a STREAMS_BLOCKED value below 2^30 was rejected");
             }
-            StreamsBlockedFrame::Uni(v) => {
-                assert!(dir == Dir::Uni);
-                v.into_u64()
+            if complete {
+                // 8-byte varint: rejected only above the limit
+                let v = (((arr[0] & 0x3f) as u64) << 56)
+                    | ((arr[1] as u64) << 48) | ((arr[2] as u64) << 40) | ((arr[3] as u64) << 32)
+                    | ((arr[4] as u64) << 24) | ((arr[5] as u64) << 16) | ((arr[6] as u64) << 8) | arr[7] as u64;
+                assert!(v > crate::sid::MAX_STREAMS_LIMIT, "a STREAMS_BLOCKED value within 2^60-1 was rejected");
+                kani::cover!(true, "over-limit value rejected");
             }
-        };
-        assert!(v <= crate::varint::VARINT_MAX && remain.len() < len);
-        kani::cover!(v == crate::varint::VARINT_MAX, "STREAMS_BLOCKED(2^62-1) is accepted by the parser");
-        kani::cover!(v > (1u64 << 60), "STREAMS_BLOCKED above 2^60 is accepted by the parser");
+            core::mem::forget(e);
+        }
     }
 }
